@@ -77,9 +77,16 @@ void markdone(int c, unsigned long id, seek_pos pos) { push(EV_MARK, id, (long) 
 void addbounce(unsigned long id, char *recip, char *report)
 {
   push(EV_BOUNCE, id, 0, recip_slot(recip));
-  /* the text handed to addbounce is the NUL-terminated tail of dline (C20) */
-  CHECK(report == dline[in_c].s + 2 && dline[in_c].len >= 3 && dline[in_c].s[dline[in_c].len - 1] == 0,
-        "C18: bounce text is the NUL-terminated report text");
+  /* the text handed to addbounce is a NUL-terminated string inside the report buffer.
+   * An oversized report is truncated to REPORTMAX bytes; its terminator then sits right
+   * behind them.  (The buffer is pre-filled with garbage, as heap memory would be.) */
+  CHECK(report == dline[in_c].s + 2, "C18: bounce text is the report text");
+  {
+    unsigned int i, ok = 0;
+    /* (+80: the "in the queue too long" sentence appended to an expired Z report) */
+    for (i = 0; i < P + R + 80; ++i) { if (i + 2 > REPORTMAX + 80) break; if (!report[i]) { ok = 1; break; } }
+    CHECK(ok, "C18: bounce text is NUL-terminated inside the (possibly truncated) report");
+  }
 }
 void job_close(int j) { push(EV_CLOSE, 0, 0, j); }
 void del_status(void) {}
@@ -161,6 +168,7 @@ void vmain(void)
   flagspawnalive[0] = flagspawnalive[1] = 1;
   /* left-over of the previous read: an incomplete report */
   if (!stralloc_copys(&dline[in_c], "")) return;
+  for (i = 0; i < ARENA_CAP; ++i) dline[in_c].s[i] = (char) 0xAA;      /* heap garbage, not zeroes */
   for (i = 0; i < P; ++i) { char ch = (char) pre[i]; ASSUME(pre[i] != 0); stralloc_append(&dline[in_c], &ch); cur[curlen++] = pre[i]; }
 #if STRICT
   /* well-framed stream: the spawners never send an empty report (two NULs in a row) */
@@ -178,7 +186,7 @@ void vmain(void)
     CHECK(xnev == nev, "C03/C18: no effect beyond what the reports call for");
     for (k = 0; k < NJ; ++k) CHECK(jobs[k].numtodo == ref_numtodo[k], "C03: numtodo drops only for K, D and expired-Z reports");
     for (i = 0; i < NC; ++i) CHECK(dels[in_c][i].used == ref_used[i], "C04: exactly the reported attempts are finished");
-    CHECK(dline[in_c].len == curlen, "an incomplete report is kept for the next read");
+    CHECK(dline[in_c].len == (curlen < REPORTMAX ? curlen : REPORTMAX), "an incomplete report is kept for the next read (at most REPORTMAX bytes of it)");
 #endif
   } else {
     CHECK(nev == 0, "C03: a lost spawner or a read error marks nothing and finishes nothing");
